@@ -502,6 +502,33 @@ theorem calendarReforming_eq (r : Int) : calendarReforming r = Chk.mkReforming r
               · cases kd <;> simp <;> (repeat' split) <;> simp_all
   · simp [hi]
 
+/-! ### names and `Display` -/
+
+theorem monthName_eq (m : Month) : monthName m = m.name := by cases m <;> rfl
+theorem monthShortName_eq (m : Month) : monthShortName m = m.shortName := by cases m <;> rfl
+theorem weekdayName_eq (w : Weekday) : weekdayName w = w.name := by cases w <;> rfl
+theorem weekdayShortName_eq (w : Weekday) : weekdayShortName w = w.shortName := by cases w <;> rfl
+
+theorem monthFmt_eq (m : Month) (alt : Bool) :
+    monthFmt m alt = (if alt then m.shortName else m.name).toList := by
+  cases alt <;> simp [monthFmt, monthName_eq, monthShortName_eq]
+
+theorem weekdayFmt_eq (w : Weekday) (alt : Bool) :
+    weekdayFmt w alt = (if alt then w.shortName else w.name).toList := by
+  cases alt <;> simp [weekdayFmt, weekdayName_eq, weekdayShortName_eq]
+
+/-- `impl Display for Date`: `{}` and `{:#}` are the model's `fmtDate` / `fmtDateAlt` -/
+theorem dateFmt_eq (d : Date) :
+    dateFmt d false = fmtDate d ∧ dateFmt d true = fmtDateAlt d := by
+  have hdash : "-".toList = ['-'] := rfl
+  constructor
+  · simp only [dateFmt, fmtDate, fmtYear, dateYear, dateMonth, dateDay, dateOrdinal, monthNumber_eq, hdash,
+      padIntRust, Int.toNat_natCast, List.nil_append, Bool.false_eq_true, if_false]
+    by_cases h : d.year < 0 <;> simp [h]
+  · simp only [dateFmt, fmtDateAlt, fmtYear, dateYear, dateMonth, dateDay, dateOrdinal, monthNumber_eq, hdash,
+      padIntRust, Int.toNat_natCast, List.nil_append, if_true]
+    by_cases h : d.year < 0 <;> simp [h]
+
 /-! ### comparison traits (`impl Ord / PartialEq / PartialOrd for inner::Calendar`, `for Date`) -/
 
 theorem calendarCmp_eq (a b : Calendar) : calendarCmp a b = a.cmp b := by
